@@ -104,6 +104,18 @@ def execute_all(scenarios, work, jobs, tag='main'):
     return byrun, states, nevents
 
 
+def derive_twins(scenarios, byrun):
+    """C18 "served exactly as over plaintext": the same conversation is run over TLS and over plaintext
+    (meta.twin); a TLS run with TLC violations that its plaintext twin does not have is a C18 violation."""
+    for sc in scenarios:
+        tw = sc.get('meta', {}).get('twin')
+        if tw and sc['id'] in byrun and tw in byrun:
+            mine_v = [x for x in byrun[sc['id']]['viol'] if x['p'] != 'C18']
+            if mine_v and not byrun[tw]['viol']:
+                byrun[sc['id']]['viol'].append({'p': 'C18', 'at': mine_v[0]['at'],
+                                                 'why': 'not served over TLS as over plaintext: ' + mine_v[0]['p'] + ' ' + mine_v[0]['why']})
+
+
 def probe_ops(scenarios, work):
     """fault-free run of scenarios on the real code to learn how many transport operations each performs"""
     os.makedirs(work, exist_ok=True)
@@ -155,7 +167,7 @@ def _check_property(a, pid, t0, work, viol_dir):
 
     if a.replay:
         rp = json.load(open(a.replay))
-        scenarios = [rp['scenario']]
+        scenarios = [rp['scenario']] + rp.get('extra', [])
     else:
         gen = getattr(G, 'gen_' + pid)
         import inspect
@@ -169,6 +181,7 @@ def _check_property(a, pid, t0, work, viol_dir):
         raise R.ToolError('duplicate scenario ids in the generated set')
     byrun, states, nevents = execute_all(scenarios, work, a.jobs)
 
+    derive_twins(scenarios, byrun)
     # spec -> implementation: did every call return what the TLC behaviour predicted?
     conf = {'compared': 0, 'mismatches': 0}
     for sc in scenarios:
@@ -210,17 +223,25 @@ def _check_property(a, pid, t0, work, viol_dir):
             if rid not in seen and rid in by_id:
                 seen.add(rid)
                 redo.append(by_id[rid])
-        rb, _, _ = execute_all(redo[:40], work, a.jobs, tag='repro')
+        redo = redo[:40]
+        for sc in list(redo):
+            tw = sc.get('meta', {}).get('twin')
+            if tw and tw in by_id and by_id[tw] not in redo:
+                redo.append(by_id[tw])
+        rb, _, _ = execute_all(redo, work, a.jobs, tag='repro')
+        derive_twins(redo, rb)
         for k, rid, x in new:
             if rid in seen and rid in rb:
                 again = {viol_key(y) for y in rb[rid]['viol']}
-                if k not in again and rid in [s['id'] for s in redo[:40]]:
+                if k not in again and rid in [s['id'] for s in redo]:
                     raise R.ToolError('violation %s of run %s did not reproduce - harness nondeterminism' % (k, rid))
             n_viol += 1
             h = hashlib.sha1((k + rid).encode()).hexdigest()[:12]
             path = os.path.join(viol_dir, '%s-%s.json' % (pid, h))
             with open(path, 'w') as f:
-                json.dump({'property': pid, 'key': k, 'violation': x, 'scenario': by_id.get(rid), 'verdict': byrun[rid]}, f)
+                tw = (by_id.get(rid) or {}).get('meta', {}).get('twin')
+                json.dump({'property': pid, 'key': k, 'violation': x, 'scenario': by_id.get(rid), 'verdict': byrun[rid],
+                           'extra': [by_id[tw]] if tw in by_id else []}, f)
             print('VIOLATION property=%s replay=%s' % (pid, path))
             R.log('   %s (run %s)' % (k, rid))
             rc = 1
